@@ -229,7 +229,7 @@ func runC04(c *ctx) error {
 	deactN, recN := 0, 0
 	for i := 0; i < n; i++ {
 		d := world.NewDID(env.kp, env.tb, env.rng, world.SHA256)
-		o := world.GenOpts{MinLen: 1, MaxLen: 7, EndDeactivate: 60, TimeDelta: env.dl, BadDeltas: i%3 == 0}
+		o := world.GenOpts{MinLen: 1, MaxLen: 7, EndDeactivate: 60, TimeDelta: env.dl, BadDeltas: i%3 == 0, RecoverOldUpd: true}
 		evs := d.GenEvents(o)
 		base := len(evs)
 		// extension: arbitrary later operations, also validly signed with every earlier key
@@ -404,6 +404,68 @@ func runC06(c *ctx) error {
 			ocT := ht.Run(env.pc, env.tb, oidOf)
 			if stateKey(ocV) != stateKey(ocT) {
 				r.Direct = append(r.Direct, out.Direct{Oracle: "version_id_is_prefix", What: fmt.Sprintf("V=%d filtered: %s ; truncated: %s", vid, stateKey(ocV), stateKey(ocT)), Case: desc})
+			}
+		}
+		// near-miss version ids: proper suffixes / prefixes / extensions of existing references are unknown ids
+		if len(sorted) > 0 {
+			ref := world.CRefString(sorted[env.rng.Intn(len(sorted))].CRef)
+			for _, raw := range []string{ref[1:], ref[3:], ref[:len(ref)-1] + "x", ref + "0", "x" + ref, "ref", strings.ToUpper(ref)} {
+				if raw == "" {
+					continue
+				}
+				known := false
+				for _, p := range sorted {
+					if world.CRefString(p.CRef) == raw {
+						known = true
+					}
+				}
+				if known {
+					continue
+				}
+				hv := &world.History{Level: 0, Pub: pubS, Unpub: unpub, VersionID: 7777, VersionIDRaw: raw}
+				ocV := hv.Run(env.pc, env.tb, oidOf)
+				cuts++
+				desc := descHistory(hv, evs, ocV)
+				desc["version_id_raw"] = raw
+				r.Count("cut", "near-miss-id:"+outcomeBucket(ocV))
+				r.Add(g, hv.CaseGallina(env.tb, env.md, ocV), desc, labels(evs)+fmt.Sprint("raw", raw, orderKey(pubS)), true)
+				if ocV.Err != "EBadVersionId" {
+					r.Direct = append(r.Direct, out.Direct{Oracle: "unknown_version_id_is_error", What: raw + ": " + stateKey(ocV), Case: desc})
+				}
+			}
+		}
+		// additional operations: a random part of the published history is handed in through the resolution
+		// option instead of the store; every cut must give what the whole store gives
+		if len(pub) >= 2 {
+			var store, add []world.Placed
+			for k, p := range pubS {
+				if p.Op.Spec.Type != operation.TypeCreate && (k+i)%2 == 0 {
+					add = append(add, p)
+				} else {
+					store = append(store, p)
+				}
+			}
+			for k := 0; k < len(sorted) && len(add) > 0; k++ {
+				vid := sorted[k].CRef
+				tt := int64(sorted[k].Time)
+				for variant := 0; variant < 2; variant++ {
+					hw := &world.History{Level: 0, Pub: pubS, Unpub: unpub}
+					ha := &world.History{Level: 0, Pub: store, Unpub: unpub, Additional: add}
+					if variant == 0 {
+						hw.VersionID, ha.VersionID = vid, vid
+					} else {
+						hw.VersionTime, ha.VersionTime = &tt, &tt
+					}
+					ocW, ocA := hw.Run(env.pc, env.tb, oidOf), ha.Run(env.pc, env.tb, oidOf)
+					cuts++
+					desc := descHistory(ha, evs, ocA)
+					r.Count("cut", "additional:"+outcomeBucket(ocA))
+					r.Add(g, ha.CaseGallina(env.tb, env.md, ocA), desc, labels(evs)+fmt.Sprint("add", variant, vid, orderKey(pubS)), true)
+					if stateKey(ocW) != stateKey(ocA) {
+						r.Direct = append(r.Direct, out.Direct{Oracle: "additional_operations_are_part_of_the_history",
+							What: fmt.Sprintf("cut %d/%d: store only: %s ; with additional: %s", vid, tt, stateKey(ocW), stateKey(ocA)), Case: desc})
+					}
+				}
 			}
 		}
 	}
